@@ -457,3 +457,43 @@ Lemma preimage_of_encode_example :
   rfc4648_preimage [90; 109; 57; 118; 89; 109; 69; 61] = Some [102; 111; 111; 98; 97]
   /\ rfc4648_preimage [90; 109; 57; 118; 89; 109; 70; 61] = None.   (* "Zm9vYmF=": non-zero padding bits *)
 Proof. split; vm_compute; reflexivity. Qed.
+
+(* ------------------------------------------------------------------------------------------ *)
+(* isValid looks at its input only through (unsigned char) / (char) casts: any list of integers  *)
+(* behaves like the byte list of its residues, so no hypothesis on the input is needed           *)
+(* ------------------------------------------------------------------------------------------ *)
+
+Lemma peek_map_w8 buf i : peek (map w8 buf) i = match peek buf i with Ok b => Ok (w8 b) | Err e => Err e end.
+Proof. unfold peek. rewrite nth_error_map. destruct (nth_error buf i); reflexivity. Qed.
+
+Lemma w8_idem b : w8 (w8 b) = w8 b.
+Proof. unfold w8. apply Z.mod_mod. lia. Qed.
+
+Lemma is_valid_loop_w8 : forall fuel buf total pos len,
+  is_valid_loop fuel (map w8 buf) total pos len = is_valid_loop fuel buf total pos len.
+Proof.
+  induction fuel as [|f IH]; intros buf total pos len; [reflexivity|].
+  cbn [is_valid_loop]. destruct (pos <? total)%nat; [|reflexivity].
+  rewrite !peek_map_w8.
+  destruct (peek buf pos) as [c0|e0]; [|reflexivity]. cbn [bind]. rewrite sx8_w8.
+  destruct (len <? utf8_len (sx8 c0)); [reflexivity|].
+  destruct (peek buf (pos + 1)) as [b1|e1]; destruct (peek buf (pos + 2)) as [b2|e2];
+    destruct (peek buf (pos + 3)) as [b3|e3];
+    destruct (utf8_len (sx8 c0) =? 4); destruct (utf8_len (sx8 c0) =? 3); destruct (utf8_len (sx8 c0) =? 2);
+    destruct (utf8_len (sx8 c0) =? 1); cbn [bind]; rewrite ?w8_idem, ?sx8_w8; try reflexivity;
+    match goal with |- (if negb ?c then _ else _) = _ => destruct c; cbn [negb]; try reflexivity; apply IH end.
+Qed.
+
+Lemma wf_map_w8 buf : wf_bytes (map w8 buf) = true.
+Proof.
+  apply wf_bytes_forall. intros b Hb. apply in_map_iff in Hb. destruct Hb as (x & <- & _). unfold w8. lia.
+Qed.
+
+Lemma is_valid_any buf : is_valid buf = Ok (layout_valid (map w8 buf)).
+Proof.
+  rewrite <- (is_valid_layout (map w8 buf) (wf_map_w8 buf)).
+  unfold is_valid. rewrite map_length. symmetry. apply is_valid_loop_w8.
+Qed.
+
+Lemma is_valid_never_fails_any buf : forall e, is_valid buf <> Err e.
+Proof. intros e. rewrite is_valid_any. discriminate. Qed.
